@@ -37,6 +37,47 @@ def c01(ctx):
                   ["chrono-tz offsets are facts", "alpha/gamma projection is faithful"])
 
 
+def _jt(x):
+    """python value -> abstract JSON tree (dict -> object with members in insertion order)"""
+    cp = lambda t: [ord(ch) for ch in t]
+    if x is None:
+        return {"j": "null"}
+    if isinstance(x, bool):
+        return {"j": "bool", "b": x}
+    if isinstance(x, (int, float)):
+        return {"j": "num", "lit": cp(repr(x))}
+    if isinstance(x, str):
+        return {"j": "str", "s": cp(x)}
+    if isinstance(x, list):
+        return {"j": "arr", "items": [_jt(i) for i in x]}
+    return {"j": "obj", "mem": [[cp(k), _jt(v)] for k, v in x.items()]}
+
+
+def hayson_grid_shapes():
+    """Hayson grid documents no encoder of ours writes but a decoder may accept: rows with keys that are no column, columns no
+    row uses, duplicate column names, meta absent / empty / with ver / with other tags, column meta, rows of other JSON types,
+    nested grids - stepped through decode / re-encode / decode (C11) and judged against Hayson.tla where it decides (C05)"""
+    num = {"_kind": "number", "val": 100, "unit": "m"}
+    cols = [[{"name": "dis"}], [{"name": "dis"}, {"name": "area"}], [{"name": "dis", "meta": {"x": 1}}], [{"name": "dis"}, {"name": "dis"}], []]
+    rows = [[], [{"dis": "Site"}], [{"dis": "Site", "area": num}, {"dis": "Other"}], [{"area": num}], [{"dis": "a", "Dis": "b", "navname": "c"}],
+            [{}], [{"dis": None}], [{"dis": {"_kind": "grid", "meta": {"ver": "3.0"}, "cols": [{"name": "a"}], "rows": [{"a": 1, "b": 2}]}}]]
+    metas = [None, {}, {"ver": "3.0"}, {"ver": "2.0", "m": {"_kind": "marker"}}, {"foo": "bar"}]
+    docs = []
+    for c in cols:
+        for r in rows:
+            for m in metas:
+                d = {"_kind": "grid"}
+                if m is not None:
+                    d["meta"] = m
+                d["cols"] = c
+                d["rows"] = r
+                docs.append(d)
+    docs += [{"_kind": "grid", "cols": [{"name": "a"}], "rows": [1, "x", [], None]}, {"_kind": "grid", "rows": [], "cols": [{"name": "a"}], "meta": {}},
+             {"rows": [{"a": 1}], "cols": [{"name": "a"}], "_kind": "grid"}, {"_kind": "grid", "meta": {}, "cols": [{"name": "a"}]},
+             {"_kind": "grid", "meta": {}, "rows": [{"a": 1}]}, [{"_kind": "grid", "meta": {}, "cols": [{"name": "a"}], "rows": [{"a": 1, "z": 2}]}]]
+    return [{"op": "dec.json.tree", "tree": _jt(d), "src": "grid-shape"} for d in docs]
+
+
 def zinc_mutant_vectors(ctx, q, styles):
     """prefixes and single edits of the spec writer's documents: quick = depth-0 documents, sampled replacement set;
     thorough = depth-0 documents with the full replacement set plus every third depth-1 document with the sampled set
@@ -80,7 +121,7 @@ def c04(ctx):
     note_events(ctx, ev2, trivial=trivial_value)
     # sentences the writers never produce: the number and escape families of MC_Texts, read by the TLA+ grammar reader and by
     # libhaystack (Trace_Total: a decidable sentence must be accepted and denote the same value)
-    fam = text_family(ctx, "num", True) + text_family(ctx, "esc", not ctx.quick)
+    fam = text_family(ctx, "num", True) + text_family(ctx, "esc", not ctx.quick) + text_family(ctx, "fld", True)
     ev3 = hs_run(ctx, fam, "fam")
     ctx.bads += tlc_trace(ctx, "Trace_Total", ev3, shards=14)
     note_events(ctx, ev3, key=lambda e: e.get("text"))
@@ -146,7 +187,7 @@ def c05(ctx):
     # inspects (number spellings at the edges of i64 / u64 / f64 among the leaves), read by Hayson.tla and by libhaystack
     vj, _ = tlc_mc(ctx, "MC_Texts", consts={"MaxLen": 2, "Mode": '"tree"', "EmitVectors": "TRUE", "KindFirst": "TRUE" if ctx.quick else "FALSE"},
                    invariants=["ReaderTotal", "Emit"], workers=8, timeout=3000)
-    ev3 = hs_run(ctx, vj, "fam")
+    ev3 = hs_run(ctx, vj + hayson_grid_shapes(), "fam")
     ctx.bads += tlc_trace(ctx, "Trace_Total", ev3, shards=14)
     note_events(ctx, ev3, key=lambda e: e.get("tree"))
     return finish(ctx,
@@ -214,7 +255,7 @@ def c03(ctx):
                    invariants=["ReaderTotal", "Emit"], workers=8, timeout=3000)
     ve, _ = tlc_mc(ctx, "MC_Texts", consts={"MaxLen": 3 if q else 4, "Mode": '"esc"', "EmitVectors": "TRUE", "KindFirst": "TRUE"},
                    invariants=["ReaderTotal", "Emit"], workers=8, timeout=3000)
-    vt = vt + ve + text_family(ctx, "num", not q)
+    vt = vt + ve + text_family(ctx, "num", not q) + text_family(ctx, "fld", True)
     # 2. prefixes and single edits of the documents the spec writer produces for the small universe
     muts = zinc_mutant_vectors(ctx, q, [0, 3, 9])
     jm = [{"op": "dec.json.tree.mutants", "tree": x["trees"][0], "full": not q} for x in hayson_universe(ctx, 0)]
@@ -258,7 +299,7 @@ def c10(ctx):
     import vlib
     allz = json.loads(vlib.sh([vlib.HS, "zones"], check=True)[1])
     zones = [{"op": "enc.zone", "zone": z} for z in (allz[::4] + [z for z in allz if "/" not in z] if q else allz)]
-    ev1 = hs_run(ctx, vecs + nests + longs + zones, "gen")
+    ev1 = hs_run(ctx, vecs + nests + longs + zones + [{"op": "enc.defaultunit"}], "gen")
     ctx.bads += tlc_trace(ctx, "Trace_Enc", ev1, shards=12)
     note_events(ctx, ev1, key=lambda e: [e.get("v"), e.get("form"), e.get("n")])
     # decoder images: everything a decoder accepts from foreign input is offered to both encoders and Display
@@ -316,7 +357,7 @@ def c11(ctx):
     sched = [{"op": "dec.sched.all", "text": t} for t in sched_docs]
     big = [{"op": "dec.sched.big", "rows": 300, "seed": ctx.seed + i} for i in range(1 if q else 6)]
     muts = zinc_mutant_vectors(ctx, q, [0, 9])
-    ev1 = hs_run(ctx, v1 + v2 + files + sched + big + muts + stream, "gen")
+    ev1 = hs_run(ctx, v1 + v2 + files + sched + big + muts + stream + hayson_grid_shapes(), "gen")
     ctx.bads += tlc_trace(ctx, "Trace_Total", ev1, shards=14, per_shard_min=50)
     note_events(ctx, ev1, key=lambda e: [e.get("text"), e.get("tree"), e.get("schedule"), e.get("fail_at"), e.get("path"), e.get("row")])
     n = 20000 if q else 200000
@@ -426,8 +467,11 @@ def c09(ctx):
         for r in x["db"]:
             idv = [t[1] for t in r if t[0] == _cps("id")]
             if idv:
-                keyed.append([idv[0]["id"], sorted(ren(r) + [[_cps("equip"), {"k": "marker"}]])])
-        rec = sorted(ren(x["rec"]) + [[_cps("id"), {"k": "ref", "id": _cps("p"), "dis": []}], [_cps("point"), {"k": "marker"}]])
+                keyed.append([idv[0]["id"], sorted(ren(r) + [[_cps("equip"), {"k": "marker"}]], key=lambda t: t[0])])
+        rec = ren(x["rec"]) + [[_cps("point"), {"k": "marker"}]]
+        if not any(t[0] == _cps("id") for t in rec):
+            rec.append([_cps("id"), {"k": "ref", "id": _cps("p"), "dis": []}])
+        rec = sorted(rec, key=lambda t: t[0])
         return {"op": "filter.rel", "text": _cps("containedBy? @r1"), "rec": rec, "db": keyed}
     rel = [_rel(x, w) for x in (vw[::2] if q else vw) for w in (True, False)]
     ev1 = hs_run(ctx, vp + muts + bombs + vw + lit + rel, "gen")
@@ -513,7 +557,8 @@ def c14(ctx):
         ns_mc(ctx, 2, 2, False, "Progs1")
         ns_mc(ctx, 2, 1, True, "Progs2")
         ns_mc(ctx, 3, 1, True, "Progs3")
-        ns_mc(ctx, 3, 2, False, "Progs3", live=False)     # safety and deadlock freedom only: the liveness graph of this instance is too large
+        # (3 threads x 2 shards did not finish within an hour on the 6-symbol graph: three threads are covered with one
+        #  shard exhaustively and with two shards by the simulated replays below)
     # sequential histories: every order of <= 3 queries, enumerated by TLC, replayed on a cold namespace
     vecs, _ = ns_mc(ctx, 1, 1, True, "ProgsSeq")
     ev1 = hs_run(ctx, vecs, "hist")
